@@ -10,7 +10,8 @@
    opts   = "-" or comma list of: trunc<n>, clr, auto, fault=<write|lseek>.<k>.<kind>.<n> (C12: k-th call fails)
    Session form (several transfers on one zckDL, reset + new missing range before each):
      S <ht> <doff> <chunks> <t>/<t>/... <opts>     t = <hdrs>:<body>:<parts>[:r]  (parts = w | k<n> | c<cut>.<cut>...;
-     :r = zck_find_valid_chunks + zck_reset_failed_chunks before this transfer); the line ends with I=<flags after
+     :<steps> before this transfer, letters in order: r = zck_find_valid_chunks + zck_reset_failed_chunks,
+     e = zck_clear_error); the line ends with I=<flags after
      each transfer> *)
 let prng_bytes seed n =
   let x = ref (((seed * 2654435761) + 1) land 0xFFFFFFFF) in
@@ -123,7 +124,7 @@ let chunk_class (c : cs) file i =
 let vstring (c : cs) file flags =
   String.concat "," (List.mapi (fun i f -> Printf.sprintf "%d%c" f (chunk_class c file i)) flags)
 
-let run_session (c : cs) (transfers : (bool * string list * string list) list) =
+let run_session (c : cs) (transfers : (string * string list * string list) list) =
   let dsz = match c.ht with 0 -> 20 | 1 -> 32 | 2 -> 64 | _ -> 16 in
   let h (b : n list) = bytes_of_string (Stubs.hash c.ht (string_of_bytes b)) in
   let nchunks = Array.length c.lens in
@@ -138,15 +139,16 @@ let run_session (c : cs) (transfers : (bool * string list * string list) list) =
   let doff = n_of_int c.doff in
   let rets = Buffer.create 16 in
   let snaps = ref [] in
-  let stopped = ref false in
-  let xf = List.fold_left (fun (x, first) (rs, hdrs, frags) ->
-    if !stopped then (x, first) else begin
+  let xf = List.fold_left (fun (x, first) (steps, hdrs, frags) ->
+    begin
     if not first then Buffer.add_char rets '/';
-    let x = if rs then rescan h doff x else x in
-    let x = dl_reset x in
-    if x.x_dl.d_err then begin
-      (* zck_get_missing_range refuses a context in error state: the session ends here *)
-      Buffer.add_char rets 'E'; stopped := true; (x, false) end else
+    (* steps before the transfer, in the order given: e = zck_clear_error, r = re-scan of the target *)
+    let x = ref x in
+    String.iter (fun ch -> if ch = 'e' then x := clear_error !x else if ch = 'r' then x := rescan h doff !x) steps;
+    let x = dl_reset !x in
+    (* with an error pending zck_get_missing_range returns NULL (marked E): no range is set, and every header line
+       and fragment is refused at the entry checks - as the model does whatever the range *)
+    if x.x_dl.d_err then Buffer.add_char rets 'E';
     let ridx = missing_ridx x.x_dl.d_tab in
     let x = List.fold_left (fun x l -> header_cb rx_comp rx_exec x (bytes_of_string l)) x hdrs in
     let rec go x = function
@@ -272,7 +274,8 @@ let () = iter_lines (fun line ->
       let ts = List.map (fun t -> match String.split_on_char ':' t with
         | hd :: body :: parts :: rest when List.length rest <= 1 ->
           let body = string_of_hex body in
-          (rest = ["r"], List.map string_of_hex (split_on ',' hd), frags_of_cuts body (cuts_of_parts parts (String.length body)))
+          ((match rest with [f] -> f | _ -> ""), List.map string_of_hex (split_on ',' hd),
+           frags_of_cuts body (cuts_of_parts parts (String.length body)))
         | _ -> failwith "transfer") (String.split_on_char '/' transfers) in
       let (res, snaps) = run_session c ts in
       let (l, _) = describe c res in
